@@ -81,6 +81,7 @@ type Config struct {
 	FPYieldPct   int  // percent of FP sites that are yield points in this run (0: none)
 	ClockVaryPct int  // percent of clock reads that see a non-canonical step (stall, fine step, jump)
 	CPUVary      bool // the CPU count the library is told differs from the canonical 4
+	RandVary     bool // the process-wide random source is seeded differently from the canonical run
 
 	// failpoint panic: the PanicAtHit-th FP hit (1-based, counted among
 	// panic-capable sites while armed) panics. Armed per operation by the harness.
@@ -464,6 +465,7 @@ func Begin(cfg Config) {
 	resetChans()
 	resetClock()
 	R.cpus = 0
+	resetRand()
 }
 
 // Run executes fns as simulated tasks until all have finished and returns.
